@@ -52,6 +52,12 @@ CHECKS = {
  "C17": ("fault_enumeration", "panic injected at every call-back position enumerated from a dry run; ledger and allocator trace validated by TLC against PanicSafe (spec/TracePanic.tla)",
          "For 24 operations that invoke user code and every position k of every call-back kind (Clone, Drop, PartialEq, Debug, Serialize, Deserialize, system / parallel closure bodies), one panic is injected on a world with multi-column tables, then every reachable value is read and every world dropped. TLC requires: the panic reaches the caller, no value dropped twice, no drop of a never-created value, no user code on a dropped value, no dropped or corrupt value reachable, allocator protocol intact, worlds droppable. Exhaustive over the enumerated (operation, kind, k) space; seven failing (operation, kind) classes of the pinned tree are recorded in known_findings.json.",
          "One panic per scenario; world shapes fixed; leaks after a panic are accepted.", "6 C17 and 7"),
+ "C14": ("translation_validation", "program family enumerated and labelled by TLC from spec/Borrow.tla, compiled by rustc against the current tree; verdicts validated by TLC (TraceBorrow)",
+         "171 programs: every pair of view kinds on one component in each position (views/views, views/entry views, entry/entry), resource view pairs, repeated entry queries (World::entry, Entries::entry, two entries), types outside the registry, 11 thread-crossing APIs x 3 payload kinds; each rejecting case has a conflict-free control that must compile (else tool error). The compiler is the implementation; TLC contributes the enumeration, the aliasing / Send / Sync oracle and the comparison. Three accepted programs (two usable results of Entries entry queries) are recorded in known_findings.json.",
+         "Programs outside the family are not covered; rustc trusted.", "6 C14 and 10"),
+ "C18": ("exploration", "exhaustive enumeration of the stated space, outcomes validated by TLC against Precond.tla (enabledness of Construct / BatchNew) with a completeness check of the enumeration",
+         "All 120 registries of length 2..9 with one repeated type x {new, with_resources, default, Deserialize human-readable, Deserialize compact} must panic, 10 duplicate-free controls must return; all 340 column-length vectors over {0,1,2,3} for 1..4 columns: Batch::new panics iff lengths differ, and an accepted batch stores exactly that many rows. TLC checks every outcome and that the whole space was enumerated.",
+         "Bounded exactly as the property states.", "6 C18"),
 }
 
 def main():
@@ -87,7 +93,7 @@ def main():
                 "thorough_cmd": "./check %s thorough" % p,
                 "evidence_file": "evidence/%s.json" % p,
                 "replay_cmd_template": "./check %s --replay {path}" % p,
-                "engine": "sched" if p in ("C07", "C08", "C12") else ("fault" if p == "C17" else "world"),
+                "engine": "sched" if p in ("C07", "C08", "C12") else ("fault" if p == "C17" else ("precond" if p == "C18" else ("borrow" if p == "C14" else "world"))),
                 "level_claimed": {"category": lvl, "text": text, "design_ref": "DESIGN.md section " + ref},
                 "level_note": note,
                 "technique": tech,
